@@ -2,6 +2,7 @@
 From Model Require Import Glob.
 From Spec Require Import GlobSpec.
 From Proofs Require Import GlobCorrect.
+From Proofs Require GlobNoDup.
 
 (* the segment matcher (greedy, backtracking to the last star, as in the Go code) decides exactly
    "`*` = any run of characters, every other character itself", for ALL patterns and names - any
@@ -26,8 +27,39 @@ Theorem C20_file_list_exact :
 Proof. exact file_list_exact_lemma. Qed.
 Print Assumptions C20_file_list_exact.
 
+(* ... and no duplicates: when, as in a real file system, no name contains the separator, no path is listed
+   twice (same patterns as above, every tree, every prefix) *)
+Theorem C20_file_list_no_duplicates :
+  forall last ds cs prefix,
+  wf_tree cs -> GlobNoDup.clean_tree cs -> Forall (fun seg => all_stars seg = false) ds ->
+  NoDup (get_file_list (ds ++ [last]) cs prefix).
+Proof. exact GlobNoDup.file_list_nodup_lemma. Qed.
+Print Assumptions C20_file_list_no_duplicates.
+
 (* non-vacuity: *.txt selects a.txt.txt; a*b selects abxb; b*.t does not select ab.t *)
 Example C20_witness :
   pm [97;46;116;120;116;46;116;120;116]%N [42;46;116;120;116]%N = true /\
   pm [97;98;120;98]%N [97;42;98]%N = true /\ pm [97;98;46;116]%N [98;42;46;116]%N = false.
 Proof. vm_compute. repeat split. Qed.
+
+(* a tree meeting the hypotheses:  a.txt, d/ (b.txt, d/ (c.txt)) - the same names at different levels *)
+Definition ex_tree : list node :=
+  [NFile [97;46;116;120;116]%N; NDir [100]%N [NFile [98;46;116;120;116]%N; NDir [100]%N [NFile [99;46;116;120;116]%N]]].
+Example C20_tree_witness : wf_tree ex_tree /\ GlobNoDup.clean_tree ex_tree /\
+  get_file_list [[100; 42]%N; [42; 46; 116; 120; 116]%N] ex_tree [46]%N = [[46; 47; 100; 47; 98; 46; 116; 120; 116]%N].
+Proof.
+  assert (Hneq : forall a b : bytes, bytes_eqb a b = false -> a <> b) by (intros a b H ->; rewrite bytes_eqb_refl in H; discriminate).
+  split; [|split; [|vm_compute; reflexivity]].
+  - constructor.
+    + cbn. constructor; [intros [H|[]]; discriminate|constructor; [intros []|constructor]].
+    + intros d sub [H|[H|[]]]; [discriminate|]. inversion H; subst. constructor.
+      * cbn. constructor; [intros [H'|[]]; discriminate|constructor; [intros []|constructor]].
+      * intros d' sub' [H'|[H'|[]]]; [discriminate|]. inversion H'; subst. constructor; [cbn; constructor; [intros []|constructor]|intros ? ? [H''|[]]; discriminate].
+  - constructor.
+    + repeat constructor; cbn; intros H; repeat (destruct H as [H|H]; [discriminate|]); exact H.
+    + intros d sub [H|[H|[]]]; [discriminate|]. inversion H; subst. constructor.
+      * repeat constructor; cbn; intros H'; repeat (destruct H' as [H'|H']; [discriminate|]); exact H'.
+      * intros d' sub' [H'|[H'|[]]]; [discriminate|]. inversion H'; subst. constructor.
+        -- repeat constructor; cbn; intros H''; repeat (destruct H'' as [H''|H'']; [discriminate|]); exact H''.
+        -- intros ? ? [H''|[]]; discriminate.
+Qed.
